@@ -48,6 +48,14 @@ func c13Op(kind uint, t *c13Tree) (string, error) {
 			rows += wn.Row() + "\n"
 		}
 		return rows, err
+	case 4: // dry-run report of the tree
+		w := newVerifWriter()
+		err := OutputFromRoot(w, t.root.real, WithDryRun())
+		return w.out, err
+	case 5: // dry run together with an encode option (the dry run is what is printed)
+		w := newVerifWriter()
+		err := OutputFromRoot(w, t.root.real, WithDryRun(), WithEncodeJSON())
+		return w.out, err
 	}
 	// JSON record
 	w := newVerifWriter()
@@ -55,7 +63,35 @@ func c13Op(kind uint, t *c13Tree) (string, error) {
 	return w.out, err
 }
 
+// c13Fresh: a tree with the same shape and names as the model, built just now and never used
+func c13Fresh(m *mNode) *c13Tree {
+	var cp func(m *mNode, parent *mNode) *mNode
+	cp = func(m *mNode, parent *mNode) *mNode {
+		n := &mNode{name: m.name, parent: parent}
+		if parent == nil {
+			n.real = NewRoot(m.name)
+		} else {
+			n.real = parent.real.Add(m.name)
+		}
+		for _, c := range m.children {
+			n.children = append(n.children, cp(c, n))
+		}
+		return n
+	}
+	r := cp(m, nil)
+	return &c13Tree{root: r, nodes: []*mNode{r}}
+}
+
+// c13SameAsFresh: the operation on the tree with its history gives what it gives on a fresh copy of the tree
+func c13SameAsFresh(kind uint, t *c13Tree, out string, err error) bool {
+	fo, fe := c13Op(kind, c13Fresh(t.root))
+	return fo == out && (fe == nil) == (err == nil)
+}
+
 func c13Want(kind uint, t *c13Tree, out string) bool {
+	if kind >= 4 {
+		return true // the content of the dry-run report is C09's; here only: a function of the tree (C13.fresh)
+	}
 	if kind == 3 {
 		return encMatches(encJSON, out, []*rec{recOfM(t.root)})
 	}
@@ -71,7 +107,7 @@ func c13Want(kind uint, t *c13Tree, out string) bool {
 // c13Name: a single path element, or (verifN() >= 10) the empty string or a name that is no path element:
 // NewRoot("") / Add("x/y") are legal calls, and text, walk and JSON do not validate names.
 func c13Name() string {
-	if verifN() >= 10 {
+	if (verifN()/10)%10 >= 1 {
 		switch verifChoose("nameKind", 0, 2) {
 		case 1:
 			return ""
@@ -94,9 +130,13 @@ func VerifC13() {
 	trees := []*c13Tree{t0}
 	hist := ""
 	ops := 0
-	kind := verifChoose("op", 0, 3) // one kind of operation per history
+	// one kind of operation per history (verifN() >= 100: the dry-run kinds, a job of their own)
+	kind := verifChoose("op", 0, 3)
+	if verifN() >= 100 {
+		kind = verifChoose("op", 4, 5)
+	}
 	for i := 0; i < n; i++ {
-		step := verifChoose("step", 0, 4)
+		step := verifChoose("step", 0, 5)
 		switch step {
 		case 0: // Add
 			t := trees[verifChoose("tree", 0, uint(len(trees)-1))]
@@ -109,13 +149,14 @@ func VerifC13() {
 			t := trees[verifChoose("tree", 0, uint(len(trees)-1))]
 			verifContext("C13.op")
 			out, err := c13Op(kind, t)
-			verifAssert(err == nil, "C13.nil")
+			verifAssert(err == nil || kind >= 4, "C13.nil")
 			if kind != 3 {
 				verifObserve("out", out)
 			}
 			verifAssert(c13Want(kind, t, out), "C13.fn")
+			verifAssert(c13SameAsFresh(kind, t, out, err), "C13.fresh")
 			out2, err2 := c13Op(kind, t)
-			verifAssert(err2 == nil && out2 == out, "C13.idem")
+			verifAssert((err2 == nil) == (err == nil) && out2 == out, "C13.idem")
 			ops++
 			hist += "O"
 		case 2: // second tree
@@ -135,6 +176,10 @@ func VerifC13() {
 			err := OutputFromMarkdown(w, &verifReader{lines: []string{verifRow("", 0, 0, a), verifRow("", 0, 1, b)}})
 			verifAssert(err == nil && w.out == a+"\n"+dLD+" "+b+"\n", "C13.md")
 			hist += "M"
+		case 5: // an operation of ANOTHER kind on one of the trees (plain text output): what it leaves in the nodes is not input
+			t := trees[verifChoose("tree", 0, uint(len(trees)-1))]
+			_, _ = c13Op(0, t)
+			hist += "T"
 		case 4: // unrelated option-less verify of a throw-away tree (read-only; switches name validation on for itself)
 			_ = VerifyFromRoot(NewRoot(verifName("name")), c13Common...)
 			hist += "V"
@@ -145,11 +190,12 @@ func VerifC13() {
 	for _, t := range trees {
 		verifContext("C13.final")
 		out, err := c13Op(kind, t)
-		verifAssert(err == nil, "C13.nil")
+		verifAssert(err == nil || kind >= 4, "C13.nil")
 		if kind != 3 {
 			verifObserve("final", out)
 		}
 		verifAssert(c13Want(kind, t, out), "C13.fn")
+		verifAssert(c13SameAsFresh(kind, t, out, err), "C13.fresh")
 	}
 	verifReach("C13.end")
 }
